@@ -1,4 +1,4 @@
-//@ unit u5_marks props C09 C18 also C11 C02
+//@ unit u5_marks props C09 C18 also C11 C02 C13 C03
 // Unit U5: which (room, entity, day) buckets of the daily log each kind of write marks for recomputation
 // (daily_log.rs, node.rs, mutation_query.rs, deletion.rs, edge.rs).  The recomputation itself (SQL + hashing over query
 // results) is out of reach; what is decided here is the other half of the mechanism: every write marks every bucket
@@ -213,7 +213,7 @@ broadcast proof fn lemma_own_marked_mono(v: Seq<InsertEntity>, n: int, a: DailyM
 //@ loop "for query in &self.sub_nodes" iter itq
             invariant marks_superset(*old(daily_log), *daily_log),
                 iter_covers(self.sub_nodes@, itq.seq()),
-                // [nested_entities_marked_so_far]
+                // [nested_entities_marked_so_far]{C09,C18,C13}
                 outer_marked(itq.seq(), itq.index@ as int, *daily_log),
                 itq.index@ == itq.seq().len() ==> subs_marked(self.sub_nodes@, *daily_log),
 //@ loop "for insert in query.1" iter iti
@@ -239,15 +239,15 @@ broadcast proof fn lemma_own_marked_mono(v: Seq<InsertEntity>, n: int, a: DailyM
                 forall|i: int| 0 <= i < it.index@ ==> marked(*daily_log, (#[trigger] self.edge_deletions_log@[i]).room_id, self.edge_deletions_log@[i].src_entity@, spec_day(self.edge_deletions_log@[i].deletion_date)),
 //@ spec
         ensures
-            // [local_write_marks_new_bucket] a local write marks the bucket the row enters
+            // [local_write_marks_new_bucket]{C09,C18,C13} a local write marks the bucket the row enters
             self.node_to_mutate.room_id is Some && self.node_to_mutate.node is Some ==>
                 marked(*final(daily_log), self.node_to_mutate.room_id->Some_0, self.node_to_mutate.node->Some_0._entity@, spec_day(self.node_to_mutate.date)),
-            // [local_write_marks_old_bucket] and the bucket the previous version leaves (its room, the day of its modification date)
+            // [local_write_marks_old_bucket]{C09,C18,C13} and the bucket the previous version leaves (its room, the day of its modification date)
             self.node_to_mutate.room_id is Some && self.node_to_mutate.old_node is Some && self.node_to_mutate.old_node->Some_0.room_id is Some ==>
                 marked(*final(daily_log), self.node_to_mutate.old_node->Some_0.room_id->Some_0, self.node_to_mutate.old_node->Some_0._entity@, spec_day(self.node_to_mutate.old_node->Some_0.mdate)),
-            // [local_write_marks_reference_tombstones] and the day every reference tombstone enters
+            // [local_write_marks_reference_tombstones]{C09,C18,C13} and the day every reference tombstone enters
             forall|i: int| 0 <= i < self.edge_deletions_log@.len() ==> marked(*final(daily_log), (#[trigger] self.edge_deletions_log@[i]).room_id, self.edge_deletions_log@[i].src_entity@, spec_day(self.edge_deletions_log@[i].deletion_date)),
-            // [local_write_marks_nested_entities] every entity nested under a field of the mutation has its own buckets marked too (the recursion reaches it; applied at every level this covers the whole tree)
+            // [local_write_marks_nested_entities]{C09,C18,C13} every entity nested under a field of the mutation has its own buckets marked too (the recursion reaches it; applied at every level this covers the whole tree)
             subs_marked(self.sub_nodes@, *final(daily_log)),
             // [local_write_keeps_marks]
             marks_superset(*old(daily_log), *final(daily_log)),
@@ -299,7 +299,7 @@ impl EdgeDeletionEntry {
                     && marked(*daily_log, old(nodes)@[i].room_id, old(nodes)@[i].entity@, spec_day(old(nodes)@[i].mdate)),
                 // [received_row_deletions_bound_so_far]{C02}
                 forall|i: int| 0 <= i < it.index@ ==> stmt_executed(((#[trigger] old(nodes)@[i]).room_id, old(nodes)@[i].id)),
-                // [received_node_tombstones_recorded_so_far]{C11}
+                // [received_node_tombstones_recorded_so_far]{C11,C03}
                 forall|i: int| 0 <= i < it.index@ ==> node_tombstone_written(#[trigger] old(nodes)@[i]),
 //@ spec
         ensures
@@ -310,7 +310,7 @@ impl EdgeDeletionEntry {
             marks_superset(*old(daily_log), *final(daily_log)),
             // [received_row_deletion_is_bound_to_the_record_room_and_id]{C02} the statement that deletes the row of a received deletion record is bound to the room AND the id the record names - the room in which the author's right was checked: a record accepted for one room never removes a row stored in another (the statement text, `WHERE room_id=? AND id=?`, is SQL and is assumed)
             r is Ok ==> forall|i: int| 0 <= i < old(nodes)@.len() ==> stmt_executed(((#[trigger] old(nodes)@[i]).room_id, old(nodes)@[i].id)),
-            // [received_node_deletion_always_recorded]{C11} every deletion record received from a peer is written to the deletion log - whether or not the row it deletes is stored here: it is what keeps this peer from fetching the row back, later, from a peer that has not seen the deletion, and what this peer hands on
+            // [received_node_deletion_always_recorded]{C11,C03} every deletion record received from a peer is written to the deletion log - whether or not the row it deletes is stored here: it is what keeps this peer from fetching the row back, later, from a peer that has not seen the deletion, and what this peer hands on
             r is Ok ==> forall|i: int| 0 <= i < old(nodes)@.len() ==> node_tombstone_written(#[trigger] old(nodes)@[i]),
 //@ end
 
@@ -326,7 +326,7 @@ pub open spec fn edge_removal_executed(e: EdgeDeletionEntry) -> bool {
                 marks_superset(*old(daily_log), *daily_log),
                 it.seq().len() == old(edges)@.len(), forall|i: int| #![trigger it.seq()[i]] #![trigger old(edges)@[i]] 0 <= i < it.seq().len() ==> *it.seq()[i] == old(edges)@[i],
                 forall|i: int| 0 <= i < it.index@ ==> marked(*daily_log, (#[trigger] old(edges)@[i]).room_id, old(edges)@[i].src_entity@, spec_day(old(edges)@[i].deletion_date)),
-                // [received_edge_tombstones_recorded_so_far]{C11}
+                // [received_edge_tombstones_recorded_so_far]{C11,C03}
                 forall|i: int| 0 <= i < it.index@ ==> edge_tombstone_written(#[trigger] old(edges)@[i]),
                 // [received_reference_deletions_bound_so_far]{C02,C11}
                 forall|i: int| 0 <= i < it.index@ ==> edge_removal_executed(#[trigger] old(edges)@[i]),
@@ -338,7 +338,7 @@ pub open spec fn edge_removal_executed(e: EdgeDeletionEntry) -> bool {
             marks_superset(*old(daily_log), *final(daily_log)),
             // [received_reference_deletion_removes_the_reference_the_record_names]{C02,C11} for every reference deletion record received, the statement that removes the reference was executed, bound to the source, source entity, label, destination and creation date the record names - the reference the author's right was checked for, and no other (the statement text is SQL and is assumed)
             r is Ok ==> forall|i: int| 0 <= i < old(edges)@.len() ==> edge_removal_executed(#[trigger] old(edges)@[i]),
-            // [received_edge_deletion_always_recorded]{C11} every reference deletion record received from a peer is written to the deletion log, whether or not the reference is stored here
+            // [received_edge_deletion_always_recorded]{C11,C03} every reference deletion record received from a peer is written to the deletion log, whether or not the reference is stored here
             r is Ok ==> forall|i: int| 0 <= i < old(edges)@.len() ==> edge_tombstone_written(#[trigger] old(edges)@[i]),
 //@ end
 
